@@ -198,7 +198,7 @@ impl UserPrmDataType {
                     return Err(PrmValueRangeError(()));
                 }
                 assert!(value == 0 || value == 1);
-                s[0] |= u8::try_from(value)? << b;
+                s[0] = (s[0] & !(1 << b)) | (u8::try_from(value)? << b);
             }
             UserPrmDataType::BitArea(first, last) => {
                 let bit_size = last - first + 1;
